@@ -59,6 +59,7 @@ def run(ctx, R):
     R.rule("r2", "Type: Serialize via Display (to_string), Deserialize via Type::parse")
     R.rule("r3", "TransparentValue deserializes untagged, variants tried in declaration order Null < Int64 < Uint64 < Float64")
     R.rule("r4", "FieldValue <-> TransparentValue conversions are identities on variants and payloads")
+    type_text_round_trip(ctx, R)
 
     n = 0
     for a in C.adts:
@@ -180,3 +181,65 @@ def run(ctx, R):
                     "%s::%s converts to %s::%s(%s); must be the same variant with the same payload"
                     % (src.split("::")[-1], v, (val.get("adt") or "?").split("::")[-1], val.get("variant"),
                        ekey(val["args"][0]) if val.get("args") else ""))
+
+
+def type_text_round_trip(ctx, R):
+    """r5: `Type` serializes as its Display text and deserializes through Type::parse (r2), so the round trip of every IR type
+    rests on Display and parse being inverse. Both are interpreted on the real bit-mask representation (rules/tybits.py) for
+    every list depth 0..=30 with six nullability patterns, all 30 patterns of depth <= 3, and five base names."""
+    from tfv import absint as A
+    from . import tybits as B
+    from . import tymodel as T
+    import itertools
+    C = ctx.core
+    R.rule("r5", "Display(Type) is the GraphQL text of the type, and Type::parse(Display(t)) == t, for every list depth 0..=30")
+    fmt, pf = B.find_display(C), C.fn(B.TY + "::parse")
+    if fmt is None or pf is None:
+        R.fail("r5", "anchor", "-", "Display for Type / Type::parse not found")
+        return
+    I = B.intrinsics()
+    cases = []
+    for d in range(0, B.MAX_DEPTH + 1):
+        pats = [lambda i: True, lambda i: False, lambda i: i % 2 == 0, lambda i: i % 2 == 1, lambda i, d=d: i != d, lambda i: i != 0]
+        for p in pats:
+            cases.append(B.nested(d, p))
+    for d in range(0, 4):
+        for bits in itertools.product((True, False), repeat=d + 1):
+            cases.append(B.nested(d, lambda i, bits=bits: bits[i]))
+    for base in ("String", "Float", "Boolean", "Custom_Scalar1"):
+        cases += [T.named(base, True), T.listof(T.named(base, False), True), B.nested(30, lambda i: i == 30, base=base)]
+    seen = set()
+    bad = None
+    n = 0
+    try:
+        for tv in cases:
+            if tv.key() in seen:
+                continue
+            seen.add(tv.key())
+            n += 1
+            want = B.render(tv)
+            text = B.display(C, I, B.concrete(tv), fmt)
+            if text != want:
+                bad = bad or ("Display", tv.depth(), want[:60], text[:60])
+                continue
+            back = B.parse(C, I, text, pf)
+            if back.variant != "Ok":
+                bad = bad or ("parse rejects Display's output", tv.depth(), want[:60], repr(back)[:60])
+                continue
+            try:
+                got = B.decode(back.fields[0])
+            except ValueError as e:
+                bad = bad or ("parse yields a malformed mask", tv.depth(), want[:60], str(e))
+                continue
+            if got.key() != tv.key():
+                bad = bad or ("parse(Display(t)) != t", tv.depth(), want[:60], B.render(got)[:60])
+    except A.Unsupported as e:
+        R.fail("r5", "unanalysable", C.loc(fmt["sp"]), "abstract evaluation of Display / parse failed: %s (fail closed)" % e)
+        return
+    except A.PanicReached as e:
+        R.fail("r5", "panic", C.loc(fmt["sp"]), "Display / parse panics on a type within the supported depth: %s" % e.what)
+        return
+    R.floor("r5", "types round-tripped", n, 200)
+    R.check(bad is None, "r5", "display-parse-round-trip", C.loc(fmt["sp"]),
+            "the text form of a type does not round-trip: %s at list depth %s: expected `%s`, got `%s` - a serialized IR type reads back as a "
+            "different type" % (bad or ("", "", "", "")), {"types": n, "max_depth": B.MAX_DEPTH})
